@@ -245,8 +245,8 @@ func codeForStruct(ty *an.Struct, cache gen.Cache) (out []gen.Declaration) {
 		checks = append(checks, fmt.Sprintf("AND %s(data->'%s')", functionName(f.Type), fieldName))
 	}
 	keyList := "key IN (" + strings.Join(keys, ", ") + ")"
-	if len(keys) == 0 {
-		keyList = "TRUE"
+	if len(keys) == 0 { // no key is expected
+		keyList = "FALSE"
 	}
 	checkList := strings.Join(checks, "\n")
 	fn := functionName(ty)
